@@ -21,7 +21,9 @@ RULE = (
     "victim's handler task has finished, its writer is closed (TCP), it is in neither router.clients nor router.blob_routing nor "
     "ConnectionHandler.connections, and no delivery is attempted to it afterwards (spy); every other connection is still "
     "registered and open and receives exactly the later device traffic its own policy admits; a reconnecting peer starts from "
-    "default settings (text updates, no BLOB until it asks again). Non-trivial: the fault is strictly inside the script and the "
+    "default settings (text updates, no BLOB until it asks again). 'soak': 60 (quick) / 400 (thorough) connections come and end on "
+    "ONE router, each by the same kind of fault or rotating through the kinds; after every ending the router is clean and a "
+    "connection that has been there all along is served in both directions. Non-trivial: the fault is strictly inside the script and the "
     "victim had set a BLOB policy. Distinct = (script, connections, victim, fault, position)."
 )
 ASSUMPTIONS = ["fake streams stand in for sockets/stdio: EOF = read returns empty, errors are raised by read()/write()"]
@@ -253,6 +255,81 @@ def run_script(case):
         s.close()
 
 
+SOAK_FAULTS = ["eof", "read-error", "handler-exception", "read-error-in-message", "junk-eof", "write-error-then-read-error"]
+
+
+def check_soak(case):
+    """A long-lived server: connections keep coming and ending (every time by the same kind of fault, or rotating through
+    the kinds) on ONE router; after each ending the router is clean and the connection that has been there all along is
+    served - nothing may wear out. case: {"fault": kind | "rotate", "n": cycles, "kind": "tcp"|"tty"|"mixed"}"""
+    from indi.device import values  # noqa: F401
+
+    boom = Exploding()
+    s = session.Session(extra_devices=[boom.device])
+    try:
+        router = s.net.router
+        drv = s.dep.drivers[0]
+        stayer = s.connect("tcp")
+        stayer.send(session.GETPROPS)
+        stayer.send(session.xml("enableBLOB", {"device": "DEV"}, text="Also"))
+        n = case["n"]
+        for k in range(n):
+            fault = SOAK_FAULTS[k % len(SOAK_FAULTS)] if case["fault"] == "rotate" else case["fault"]
+            kind = case["kind"] if case["kind"] != "mixed" else ("tcp", "tcp", "tty")[k % 3]
+            where = f"cycle {k}/{n} fault={fault} kind={kind}"
+            v = s.connect(kind)
+            try:
+                v.send(session.GETPROPS)
+                v.send(session.xml("enableBLOB", {"device": "DEV"}, text="Also"))
+                if fault == "eof":
+                    v.eof()
+                elif fault == "read-error":
+                    v.read_error()
+                elif fault == "handler-exception":
+                    v.send('<newTextVector device="BOOM" name="X"><oneText name="A">x</oneText></newTextVector>')
+                elif fault == "read-error-in-message":
+                    v.send_raw('<newTextVector device="DEV" name="TXT"><oneText name="A">par')
+                    s.settle()
+                    v.read_error()
+                elif fault == "junk-eof":
+                    v.send_raw("\x00\x01 garbage <<< &&& </x> <getProperties")
+                    s.settle()
+                    v.eof()
+                else:
+                    v.write_error()
+                    s.in_loop(lambda: setattr(drv.g.t.b, "value", f"lost-{k}"))
+                    v.read_error()
+                s.settle()
+            except Failure:
+                raise
+            except Exception as exc:  # noqa
+                raise Failure(f"soak:fault-escapes:{type(exc).__name__}", f"{where}: {exc}")
+            if not v.task.done() or v.handler in router.clients or v.handler in router.blob_routing:
+                raise Failure(f"soak:victim-not-cleaned:{fault}", f"{where}: task_done={v.task.done()} registered={v.handler in router.clients}")
+            # the connection that has been there all along is still served, in both directions
+            stayer.new_output()
+            val = f"soak-{k}"
+            s.in_loop(lambda: setattr(drv.g.t.b, "value", val))
+            if not any(e.tag == "setTextVector" and any(c.text == val for c in e) for e in stayer.elements(stayer.new_output())):
+                raise Failure(f"soak:stayer-not-served:{fault}", f"{where}: the device update after this cycle did not reach the long-lived connection")
+            stayer.send(session.xml("newTextVector", {"device": "DEV", "name": "TXT"}, [{"kind": "oneText", "attrs": {"name": "A"}, "text": f"w{k}"}]))
+            if drv.g.t.a._value != f"w{k}":
+                raise Failure(f"soak:stayer-write-lost:{fault}", f"{where}: a write of the long-lived connection did not reach the driver (TXT.A={drv.g.t.a._value!r})")
+        newcomer = s.connect("tcp")
+        newcomer.send(session.GETPROPS)
+        if not any(e.tag == "defTextVector" and e.get("name") == "TXT" for e in newcomer.elements(newcomer.new_output())):
+            raise Failure("soak:newcomer-handshake-not-answered", f"after {n} cycles ({case['fault']})")
+        if len(router.clients) != 2:
+            raise Failure("soak:router-clients-leaked", f"after {n} cycles: {len(router.clients)} clients registered, 2 connections are open")
+        for ctx_ in s.unhandled():
+            exc = ctx_.get("exception")
+            if exc is not None and not isinstance(exc, (BrokenPipeError, ConnectionResetError)):
+                raise Failure(f"soak:task-exception:{type(exc).__name__}", f"{exc!r}")
+        return Info(n_eval=n, n_nontrivial=n, label_counts={f"soak-{case['fault']}": n})
+    finally:
+        s.close()
+
+
 def check_case(case):
     nt = run_script(case)
     return Info(nontrivial=nt, labels=[case["fault"], "victim-" + case["conns"][case["victim"] % len(case["conns"])], f"conns={len(case['conns'])}"])
@@ -303,7 +380,7 @@ case_st = st.fixed_dictionaries(
     }
 )
 
-SUBCHECKS = {"catalogue": check_block, "single": check_case, "scripts": check_case}
+SUBCHECKS = {"catalogue": check_block, "single": check_case, "scripts": check_case, "soak": check_soak}
 
 
 def blocks(tier):
@@ -316,3 +393,6 @@ def run(ctx):
     cnt = ctx.each("catalogue", blocks(ctx.tier), check_block, stop_after=4, timeout=150)
     ctx.exhaustive["catalogue"] = {"complete": True, "n_blocks": cnt, "bound": "3 scripts x 4 connection sets x every victim x 6 fault kinds x every step index"}
     ctx.hyp("scripts", case_st, check_case, ctx.scale(300, 3000))
+    n_soak = ctx.scale(60, 400)
+    soaks = [{"fault": f, "n": n_soak, "kind": k} for f, k in [("rotate", "mixed"), ("handler-exception", "tcp"), ("read-error-in-message", "tcp"), ("eof", "tty"), ("write-error-then-read-error", "tcp")]]
+    ctx.each("soak", soaks, check_soak, stop_after=2, timeout=ctx.scale(150, 600))
